@@ -320,6 +320,27 @@ def orbifoldSymbol (s : Sym) : Outcome OrbSym :=
     | .err => .err
     | .panic => .panic
 
+/-- the orders of the mirror corners: 2-orbits with a fixed chamber and v > 1
+    (not a function of delaney2d.rs; the census `orbifold_symbol` has to reproduce) -/
+def cornerDegrees (s : Sym) : Outcome (List Nat) :=
+  match orbitTypes2d s with
+  | .ok ts => .ok ((ts.filter fun t => !t.2 && t.1 > 1).map (·.1))
+  | .err => .err
+  | .panic => .panic
+
+/-- **monitor** (premise of the conditional Gauss–Bonnet theorem of Props/C08.lean, evaluated by
+    the driver on every explored symbol): the boundary tracing collected every mirror corner
+    exactly once (as a multiset: the corners of all boundary components together are the corner
+    census), an orientable symbol has an even `2 - χ` (so that `x / 2` handles lose nothing), and
+    the symbol is closed without cross-cap exactly when the D-symbol is oriented. -/
+def symbolExact (s : Sym) : Bool :=
+  match traceBoundary s, cornerDegrees s, orbifoldSymbol s with
+  | .ok bnds, .ok corners, .ok o =>
+    sortDescNat bnds.flatten == sortDescNat corners &&
+    (!o.orientable || (2 - (eulerCharacteristic s + (bnds.length : Int))) % 2 == 0) &&
+    ((bnds.isEmpty && (o.orientable || o.count == 0)) == s.view.isOriented)
+  | _, _, _ => false
+
 /-- `degree_list_as_string` -/
 def degreeListAsString (vs : List Nat) : String :=
   String.join (vs.map fun v => if v < 10 then toString v else "(" ++ toString v ++ ")")
